@@ -215,6 +215,13 @@ def check(case):
                 else:
                     sols = [nx.vec(s) for s in engine(lambda: list(ms.solve()))]
             stats = None
+        elif case.get("split"):
+            # the union of the enumerations of the sub-problems of split(), each by its own sequential solver
+            k, var = case["split"]
+            for sp in engine(pb.split, k, var % len(pb.dom_indices_lst)):
+                sols += [nx.vec(s) for s in engine(engine(make_solver, sp, model, args, cfg).find_all)]
+            stats = None
+            tags.append("split-enumeration")
         else:
             solver = engine(make_solver, pb, model, args, cfg)
             if what == "opt":
@@ -381,6 +388,8 @@ def c20_case(draw, tier, interpreted):
     if what in ("count", "opt") and model not in ("tsp",) and not huge and draw(st.integers(0, 3)) == 0:
         case["mp"] = draw(st.integers(1, 3))
         case["schedule"] = draw(st.lists(st.integers(0, 2), max_size=10))
+    if model == "golomb" and what == "count" and "mp" not in case and draw(st.booleans()):
+        case["split"] = [draw(st.integers(2, 7)), draw(st.integers(0, 9))]
     return case
 
 
